@@ -146,7 +146,11 @@ def cacheViolation (tol : Q) (n : Nat) (t : PT Q) : Option String :=
     | .witness ws =>
       let poly := Poly.intersectionN n nd.path
       if nd.isRoot then none else
-      match ws.find? (fun w => w.length != n || !Poly.containsTol tol poly w) with
+      -- `contains` is evaluated in f64: allow the rounding error of `b − a·w` (2^-48 of the magnitudes involved)
+      let okRow : List Q → List Q × Q → Bool := fun w rb =>
+        let mag := (rb.1.zip w).foldl (fun s (a, x) => s + absQ (a * x)) (absQ rb.2)
+        decide (-(tol + mag * mkRat 1 (2 ^ 48)) ≤ rb.2 - dot rb.1 w)
+      match ws.find? (fun w => w.length != n || !(poly.rows.all (okRow w))) with
       | some w => some s!"node {nd.idx}: stored witness {showVec w} violates its path conditions"
       | none => if ws.isEmpty then some s!"node {nd.idx}: FeasibleWitness with an empty witness list" else none
     | .infeasible =>
@@ -474,7 +478,12 @@ def judgeHist : P Verdict := do
     match model with
     | none => return .diverge s!"step {step} ({opname}): model rejects the call, implementation completed"
     | some mt =>
-      if os.missing > 0 then
+      -- ill-scaled data: where the code's float `contains` accepts a cached witness at the threshold and the exact
+      -- one does not, the model asks the solver and the code does not; the answer it misses is "feasible"
+      if os.missing > 0 && illScaled t' then
+        inexact := true
+        tag "contains-at-threshold"
+      if os.missing > 0 && !illScaled t' then
         return .diverge s!"step {step} ({opname}): the model asked {os.missing} LP question(s) the implementation did not ask"
       -- indices of the nodes of the operand that survive in the model result must be kept; the slab may
       -- hand the index of a removed node to a new node, so all other indices are only required to be fresh
@@ -488,6 +497,12 @@ def judgeHist : P Verdict := do
           e.poly == e'.poly && e.obj == e'.obj && e.ret != e'.ret))
         if ambiguous then
           return .skip s!"step {step} ({opname}): replay ambiguous (identical LP questions answered differently under the fault plan); property oracles passed"
+        -- ill-scaled data: the code's float `contains` and the exact one may disagree at the threshold, which changes
+        -- cached states only; structure and maps must still agree
+        if illScaled t' && treeCmp (t.indices.filter (fun i => mt.indices.contains i)) true (eraseStates mt) (eraseStates t') != .different then
+          inexact := true
+          tag "state-at-threshold"
+        else
         return .diverge s!"step {step} ({opname}): model tree differs from the implementation's tree (structure, maps, states or kept indices) MODEL {showTree mt} IMPL {showTree t'} BEFORE {showTree t}"
     t := t'
     evPrev := ev'
